@@ -467,5 +467,5 @@ func TestSpectral(t *testing.T) {
 	vk.Enumerate(t, "spectral-exh-directed", len(dg), func(i int) specCase {
 		return specCase{G: graphFromMask(dg[i].n, true, dg[i].mask), Damp: 0.25, Kind: 2}
 	}, checkSpectral)
-	vk.Run(t, "spectral", vk.Opts{Quick: 6000, Thorough: 140000}, drawSpectral, checkSpectral)
+	vk.Run(t, "spectral", vk.Opts{Quick: 6000, Thorough: 100000}, drawSpectral, checkSpectral)
 }
